@@ -1,0 +1,15 @@
+//go:build verif
+
+package cmd
+
+import (
+	"math/rand"
+
+	"github.com/hnakamur/whispertool"
+)
+
+// RandomPointsListForVerif runs the points generator of the generate command on a random
+// source chosen by the caller (verification harness only).
+func RandomPointsListForVerif(retentions []whispertool.ArchiveInfo, src rand.Source, rndMax int, until, now whispertool.Timestamp) PointsList {
+	return randomPointsList(retentions, rand.New(src), rndMax, until, now)
+}
